@@ -182,8 +182,9 @@ func VerifC05Synchronize() {
 		}
 	}
 	m.TriggerBlockSynchronize(ctx)
+	m.syncBlocksWait.Wait() // natively this waits for real timers (10 s orphan poll); virtual under the engine
 	left := verifQuiesce()
-	verifObserve("c05", length, start, len(log), left)
+	verifObserve("c05", length, start, len(log))
 
 	// the thread finished: only the consumer waits for more requests
 	verifAssert(left <= 1, "synchroniser-or-helper-left-blocked:"+verifBlockedInfo())
